@@ -282,6 +282,38 @@ theorem jac_is_gradient_default {n : Type} [Fintype n] [DecidableEq n] (sbs : Li
     rw [jacValues_eq, List.getD_eq_getElem?_getD, List.getElem?_map, List.getElem?_eq_getElem hj']
     simpa [List.getD_eq_getElem?_getD, List.getElem?_eq_getElem hj] using this
 
+/-! ## The cost configuration -/
+
+/-- **`compute_jac` never looks at `cost_method` / `cost_func`**: with an observable set it returns the
+same entries (hence, by `jac_is_gradient`, the gradient of the *observable* expectation) whatever the
+cost method; `evaluate_parameters` returns that observable expectation exactly for
+`cost_method = "OBSERVABLE"`.  So the property concerns OBSERVABLE mode; in STATE / BITSTRING mode
+`compute_jac` is not the gradient of `evaluate_parameters` (documented: "assuming the cost function is
+in observable mode"). -/
+theorem jac_ignores_cost_method (cm : CostMethod) (orig : Bool) (bs : List Block) (L m : Nat)
+    (idx : Option (List Int)) (hasObs hasFunc : Bool) :
+    computeJacCfg true cm orig bs L m idx = computeJac orig bs L m idx ∧
+    (evalKind cm hasObs hasFunc = .ok true ↔ cm = .observable ∧ hasObs = true) := by
+  refine ⟨rfl, ?_⟩
+  cases cm <;> cases hasObs <;> cases hasFunc <;> simp [evalKind]
+
+/-- Without `cost_observable` no jacobian entry is ever returned: `NotImplementedError` (or the earlier
+errors) as soon as one free parameter is requested, the empty array otherwise. -/
+theorem jac_without_observable (cm : CostMethod) (orig : Bool) (bs : List Block) (L m : Nat)
+    (idx : Option (List Int)) (es : List JEntry)
+    (h : computeJacCfg false cm orig bs L m idx = .ok es) : es = [] := by
+  unfold computeJacCfg at h
+  simp only [Bool.false_eq_true, ↓reduceIte] at h
+  split at h
+  · cases h
+  · split at h
+    · exact (Except.ok.inj h).symm
+    · split at h <;> cases h
+
+example : computeJacCfg false .state false [⟨.ham, 0, false⟩] 1 1 none = .error .noobs ∧
+    computeJacCfg false .state false [⟨.ham, 0, false⟩] 1 1 (some []) = .ok [] ∧
+    computeJacCfg true .bitstring false [⟨.ham, 0, false⟩] 1 1 none = .ok [⟨0, 0, 0, 1, 0⟩] := by decide
+
 /-- **The loop as shipped (`computeJac true`) satisfies the same statement when every block has at
 most one free parameter** — it then returns exactly what the repaired loop returns. -/
 theorem jac_shape_and_entries_partial (bs : List Block) (L m : Nat) (idx : Option (List Int))
